@@ -2,7 +2,7 @@
 (* Leg A of C44: for every expression of the mini algebra up to depth 2, every small world of      *)
 (* series and EVERY hash function, the analyzer's decision makes sharded = unsharded evaluation.   *)
 EXTENDS QueryShard, Json, IOUtils, SequencesExt
-CONSTANTS NShards, MaxSeries, Vals, Ops, WithLrep, Depth2
+CONSTANTS NShards, MaxSeries, Vals, Ops, WithLrep, Depth2, Depth3   \* Depth3: "none" | "by" | "all"
 
 Names == {MetricName, "a", "b"}
 LNames == {"a", "b"}
@@ -23,7 +23,16 @@ Lreps(E) == IF WithLrep THEN { [k |-> "lrep", dst |-> d, src |-> s, e |-> x] : d
 
 D1 == Aggs(Sels) \cup Bins(Sels, Sels) \cup Lreps(Sels)
 D2 == IF Depth2 THEN Aggs(Bins(Sels, Sels)) \cup Aggs(Lreps(Sels)) \cup Bins(Aggs(Sels), Aggs(Sels)) \cup Aggs(Aggs(Sels)) ELSE {}
-Exprs == D1 \cup D2
+(* chains of three nested aggregations: the analyzer threads ONE running analysis through all    *)
+(* grouping nodes in walk order, so what the third scope does depends on how the first two combined *)
+Chain3(modes, sels) == { [k |-> "agg", op |-> "sum", by |-> b1, ls |-> L1, e |->
+                           [k |-> "agg", op |-> "sum", by |-> b2, ls |-> L2, e |->
+                             [k |-> "agg", op |-> "sum", by |-> b3, ls |-> L3, e |-> x]]]
+                         : b1 \in modes, b2 \in modes, b3 \in modes, L1 \in LSets, L2 \in LSets, L3 \in LSets, x \in sels }
+D3 == CASE Depth3 = "none" -> {}
+        [] Depth3 = "by"   -> Chain3({TRUE}, { [k |-> "sel", name |-> "m1"] })
+        [] Depth3 = "all"  -> Chain3(BOOLEAN, { [k |-> "sel", name |-> "m1"], [k |-> "sel", name |-> "*"] })
+Exprs == D1 \cup D2 \cup D3
 
 VARIABLES e, S, an, h, ok, phase
 vars == <<e, S, an, h, ok, phase>>
